@@ -770,6 +770,30 @@ class IArr:
                 axes.append(ax)
         return IArr(self.store, axes, self.vshape[:-1], quat=True)
 
+    def _np_stack(self, args, axis=0, **kw):
+        parts = list(args[0])
+        if not all(isinstance(p, IArr) for p in parts) or axis not in (-1, len(self.vshape)):
+            raise OutOfReach("np.stack form (index-level)")
+        from .nc import dims_equal
+        for p in parts[1:]:
+            if len(p.vshape) != len(parts[0].vshape):
+                raise Raised("ValueError", "all input arrays must have the same shape")
+            for a, b in zip(parts[0].vshape, p.vshape):
+                dims_equal(a, b, "conformable.stack")
+        snaps = [p._snapshot() for p in parts]
+        n = len(parts)
+
+        def fn(vi):
+            c = vi[-1]
+            if isinstance(c, int):
+                return snaps[c](tuple(vi[:-1]))
+            res = None
+            for k in range(n - 1, -1, -1):
+                v = snaps[k](tuple(vi[:-1]))
+                res = v if res is None else ite(c == k, v, res)
+            return res
+        return IArr.from_fn(list(parts[0].vshape) + [n], fn, cplx=any(p.cplx for p in parts))
+
     def _np_transpose(self, args, axes=None, **kw):
         if len(args) > 1 and axes is None:
             axes = args[1]
